@@ -41,6 +41,12 @@ def tie(ctx):
         g.control_step(mn)
         lines += ["coupling g2pFactor %s" % f2hex(hhv), "coupling g2p_power_gen %s %s %s" % (f2hex(m * sc), f2hex(float(np.ravel(g.conversion_factor_kgps_to_mw())[0])), f2hex(eta))]
         expect += [float(np.ravel(g.conversion_factor_kgps_to_mw())[0]), float(power.sgen.at[sg, "p_mw"])]
+        sk3 = pp.create_sink(gas, 1, 0.0)
+        sg3 = ppw.create_sgen(power, 1, p_mw=p, scaling=sc)
+        g3 = G2PControlMultiEnergy(mn, sg3, sk3, efficiency=eta, element_type_power="sgen", calc_gas_from_power=True)
+        g3.control_step(mn)
+        lines += ["coupling g2p_gas_cons %s %s %s" % (f2hex(p * sc), f2hex(float(np.ravel(g3.conversion_factor_kgps_to_mw())[0])), f2hex(eta))]
+        expect += [float(gas.sink.at[sk3, "mdot_kg_per_s"])]
         sk2 = pp.create_sink(gas, 1, m, scaling=sc)
         s2 = pp.create_source(gas2, 1, 0.0)
         gg = GasToGasConversion(mn, sk2, s2, efficiency=eta, name_gas_net_from="gas", name_gas_net_to="gas2")
@@ -119,6 +125,20 @@ def oracle(case):
             P2GControlMultiEnergy(mn, lds if case["vector"] else lds[0], srcs if case["vector"] else srcs[0], efficiency=eta)
             for v, s, si in zip(vals, scal, srcs):
                 expected.append(("gas", "source", si, "mdot_kg_per_s", v * s * (1e3 / (hhv * 3600)) * eta))
+        elif kind == "g2p" and rng.random() < 0.5:
+            # power-led: the generators' output determines the gas consumption written to the paired sinks; the paired
+            # elements carry unrelated labels in their tables (extra elements shift them, pairs may be crossed)
+            for _ in range(int(rng.integers(0, 3))):
+                pp.create_sink(gas, 1, float(rng.uniform(0.001, 0.01)))
+            pw = rng.uniform(0.5, 20, k)
+            sks = [pp.create_sink(gas, 1, 0.0) for _ in range(k)]
+            sgs = [ppw.create_sgen(power, 1, p_mw=float(v), scaling=float(s)) for v, s in zip(pw, scal)]
+            if case["vector"] and rng.random() < 0.5:
+                sks = sks[::-1]
+            G2PControlMultiEnergy(mn, sgs if case["vector"] else sgs[0], sks if case["vector"] else sks[0], efficiency=eta,
+                                  element_type_power="sgen", calc_gas_from_power=True)
+            for v, s, ki in zip(pw, scal, sks):
+                expected.append(("gas", "sink", ki, "mdot_kg_per_s", v * s / ((hhv * 3600 / 1e3) * eta)))
         elif kind == "g2p":
             sks = [pp.create_sink(gas, 1, float(v), scaling=float(s)) for v, s in zip(vals, scal)]
             sgs = [ppw.create_sgen(power, 1, p_mw=0.0) for _ in range(k)]
